@@ -55,9 +55,13 @@ TEXTS = {
  "C06": ("theorems (all vectors, all None placements): None propagates through every elementwise operation and never raises, comparisons are "
          "False at None positions with a non-nullable bool result, every reduction is the function of the None-free list (with the empty "
          "results), len counts None, dropna = select(not isna), fillna replaces exactly the None positions, both report non-nullable; " + CORR
-         + " - exhaustive over None placements of lengths 0..5 for every dtype (plus declared / assigned-None / lived-in vectors)",
-         TRUST.format("") + "mean/stdev arithmetic on floats is a parameter compared with a tolerance.",
-         "Rocq proof over the None-handling model; correspondence exhaustive over None placements"),
+         + " - exhaustive over None placements of lengths 0..5 for every dtype (plus declared / assigned-None / lost-None / lived-in / "
+         "join-made / promoted-in-place vectors; per-group aggregates against Python's reduction of each group's None-free values)"
+         + TR.format("vector.py Vector.max/min/sum/all/any/mean/stdev and the per-group functions of Table.aggregate / Table.window - "
+                     "EqReduce.v, 13 theorems: every generated reduction is a function of the None-free cells for ALL instantiations of "
+                     "Python's builtins, = the C06 model and = the property's statement"),
+         TRUST.format(" and the translator") + "mean/stdev arithmetic on floats is a parameter compared with a tolerance.",
+         "Rocq proof over the None-handling model; the reductions regenerated from source and re-proved None-insensitive; correspondence exhaustive over None placements"),
  "C07": ("theorems (all vectors/tables, all keys): v[i], v[slice] = Python list slicing for every start/stop/step (slice_length correct, "
          "positions valid), masks keep exactly the True positions, wrong lengths are errors, comparisons are elementwise; on tables the "
          "same row selection on every column, missing columns are errors, rows and columns commute; " + CORR + " - exhaustive slice box "
@@ -74,12 +78,19 @@ TEXTS = {
  "C12": ("theorems (all tables, any number of key columns): groups are the distinct key tuples in first-appearance order with ascending "
          "rows; every built-in aggregate is the textbook function of the group's non-None values in row order, with the empty results; a "
          "custom function is called once per group in order with the raw values; whole-column reductions = aggregating one group; " + CORR
-         + " under 3 hash seeds (hash-colliding keys, look-alike column names, named external vectors, prior-call histories)",
-         TRUST.format("") + "dict == insertion-ordered association list; float arithmetic of mean/stdev is a parameter (tolerance 1e-9).",
-         "Rocq proof: partition-index lemma + refinement of the grouping algorithm to filter-based spec; differential correspondence"),
+         + " under 3 hash seeds (hash-colliding keys, look-alike column names, named external vectors, prior-call histories, "
+         "custom functions that keep their argument, complex / Fraction / Decimal values by the oracle alone)"
+         + TR.format("the grouping loop of Table.aggregate (dict get / insert / append, the key tuple of a row) - EqPartition.v, 9 theorems: "
+                     "generated index = Model.partition, one entry per distinct key in first-appearance order with ascending rows; the six "
+                     "per-group functions - EqReduce.v, 13 theorems: generated = Model.agg_fn, textbook aggregate of the non-None values"),
+         TRUST.format(" and the translators") + "dict == insertion-ordered association list; float arithmetic of mean/stdev is a parameter (tolerance 1e-9).",
+         "Rocq proof: partition-index lemma + refinement of the grouping algorithm to filter-based spec; grouping loop and per-group functions regenerated from source; differential correspondence"),
  "C13": ("theorems: window keeps the row count and order, reproduces the key columns, and gives row i the aggregate of the group of key i "
-         "(= aggregate joined back); " + CORR + " (window and aggregate run on the same inputs; prior-call histories)",
-         TRUST.format(""), "Rocq proof: window = aggregate expanded to rows; differential correspondence against aggregate"),
+         "(= aggregate joined back); " + CORR + " (window and aggregate run on the same inputs; prior-call histories; custom functions; "
+         "complex / Fraction / Decimal values by the oracle alone)"
+         + TR.format("the grouping loop and the six per-group functions of Table.window - EqPartition.v / EqReduce.v: window builds the "
+                     "index aggregate builds and applies to each group what aggregate applies"),
+         TRUST.format(" and the translators"), "Rocq proof: window = aggregate expanded to rows; window's grouping loop and per-group functions regenerated from source and proved equal to aggregate's; differential correspondence against aggregate"),
  "C14": ("theorems (any number of keys, every direction / na_last combination): the result is a permutation, strongly sorted for the "
          "lexicographic order of the keys each in its direction with ties in input order (stability), that order determines the result "
          "uniquely, None placement is independent of direction, sorting is idempotent, Vector.sort_by obeys the same contract; " + CORR
